@@ -675,8 +675,14 @@ func Generate(r *rand.Rand, o Options) *World {
 	}
 	refTo := func(fromDoc int, t node) wire.V {
 		ptr := t.ptr
-		if o.NestedPtrs && t.kind == "schema" && r.Intn(6) == 0 {
-			ptr = append(append([]string{}, ptr...), "properties", "k")
+		if o.NestedPtrs && t.kind == "schema" {
+			switch r.Intn(8) {
+			case 0:
+				ptr = append(append([]string{}, ptr...), "properties", "k")
+			case 1:
+				// through a keyword of the Swagger-specific part of a schema (typed roots look it up in a second step)
+				ptr = append(append([]string{}, ptr...), "example")
+			}
 		}
 		return wire.ObjV(wire.M("$ref", wire.StrV(relSpelling(r, urls[fromDoc], urls[t.doc], ptr, o.Spellings))))
 	}
@@ -805,6 +811,10 @@ func Generate(r *rand.Rand, o Options) *World {
 					p = p.Set("k", wire.ObjV(wire.M("type", wire.StrV("string"))))
 				}
 				s = s.Set("properties", p)
+				if o.NestedPtrs {
+					// a schema-shaped example: a legal target for a nested pointer
+					s = s.Set("example", wire.ObjV(wire.M("type", wire.StrV("number")), wire.M("title", wire.StrV("example of "+n))))
+				}
 			}
 			defs = defs.Set(n, s)
 		}
